@@ -12,6 +12,9 @@ import Gts.Lemmas.MarkGuardOps
 import Gts.Lemmas.Record
 import Gts.Bridge.SeqReverse
 import Gts.Bridge.SeqComplement
+import Gts.Lemmas.ReverseInvol
+import Gts.Lemmas.MarksDelAll
+import Gts.Lemmas.ReverseStable
 namespace Gts.C05
 open Gts Loc
 
@@ -169,6 +172,242 @@ theorem reverse_feature_marks_partial (s : Seq) (f : Feature) (hf : f ∈ s.feat
       outerMarks f'.loc = ((outerMarks f.loc).2, (outerMarks f.loc).1) :=
   ⟨{ f with loc := f.loc.reverse s.len }, mem_of_perm_map (reverse_table_perm s) hf, rfl, rfl,
    reverse_marks_partial f.loc s.len hw hg⟩
+
+/-! ### `Reverse` twice — joins, orders, complements
+
+`Joined.Reverse` reverses the parts and re-`Join`s them in mirrored order (`Ordered.Reverse`:
+`Order`, `Complemented.Reverse`: the inner location).  `Join` pushes its arguments through the
+reduction rules of `LocationList.Push`, and those are not mirror symmetric
+(`Gts/Spec/ReverseGuard.lean`): a point is absorbed into a range that STARTS at it but not into one
+that ends on it; K2 drops the point one base behind a range; the `Between` rules meet K1.  So the
+structural involution needs "no `Join` of the first reversal reduces" (`reverseStable`), the
+denotation-level one only that K2 fires in neither reversal.  The three witnesses below are
+replayed on the real code by the C05 harness (`loc.reverse`, twice) on every run. -/
+
+/-- FULL STATEMENT (false on the model, and on the code): "`Reverse` twice is the identity on every
+canonical, well-formed, duplicate-free location inside `[0, L]`".  Witness `join(4,5..8)` on ten
+residues: the parts reverse to `3..6` and `7`, `Join` drops the point behind the range (K2), the
+result `3..6` reverses to `5..8`. -/
+theorem reverse_involutive_full_refuted :
+    ¬ (∀ (l : Loc) (L : Int), canonP l = true → wf l = true → coordsWithin l L = true →
+        (den l).Nodup → reverse (reverse l L) L = l) := by
+  intro h
+  have := h (joined [point 3, ranged 4 8 false false]) 10 (by decide) (by decide) (by decide) (by decide)
+  have := congrArg (fun x => Loc.beq x (joined [point 3, ranged 4 8 false false])) this
+  revert this
+  decide
+
+/-- … and K2 is not the only rule in the way: with K2 firing in NEITHER reversal the structural law
+is still false.  Witness `join(5,4^5)` — a point and the site in front of it, duplicate-free — on
+ten residues: `Between.Reverse` (K1) puts the site `5^6` in front of the point `6`, `Join` replaces
+a site by the point that follows it, `6` reverses to `5`. -/
+theorem reverse_involutive_k2_refuted :
+    ¬ (∀ (l : Loc) (L : Int), canonP l = true → wf l = true → coordsWithin l L = true →
+        (den l).Nodup → reverseAbs l L = false → reverseAbs (reverse l L) L = false →
+        reverse (reverse l L) L = l) := by
+  intro h
+  have := h (joined [point 4, between 4]) 10 (by decide) (by decide) (by decide) (by decide)
+    (by decide) (by decide)
+  have := congrArg (fun x => Loc.beq x (joined [point 4, between 4])) this
+  revert this
+  decide
+
+/-- … nor are K1 and K2 together: without any between-site and without K2, `join(3..5,5)` (the
+point ON the last base of the range — `Push` keeps it) reverses to `join(6,6..8)`, where `Push`
+absorbs the point into the range that starts at it; `6..8` reverses to `3..5`. -/
+theorem reverse_involutive_absorb_refuted :
+    ¬ (∀ (l : Loc) (L : Int), canonP l = true → wf l = true → coordsWithin l L = true →
+        (leaves l).all (fun u => !isBetween u) = true →
+        reverseAbs l L = false → reverseAbs (reverse l L) L = false →
+        reverse (reverse l L) L = l) := by
+  intro h
+  have := h (joined [ranged 2 5 false false, point 4]) 10 (by decide) (by decide) (by decide)
+    (by decide) (by decide) (by decide)
+  have := congrArg (fun x => Loc.beq x (joined [ranged 2 5 false false, point 4])) this
+  revert this
+  decide
+
+/-- **`Reverse` is an involution on composite locations**: for every canonical location (`canonP`:
+what `Join` / `Order` / `Complement()` build — any kind, arity, nesting, strand, partial markers)
+and EVERY length `L` (in particular every `L` with the coordinates inside `[0, L]`), if no `Join`
+in the evaluation of the first reversal reduces its arguments (`reverseStable`, decidable), then
+`reverse (reverse l L) L = l`.  Orders and complements need nothing of their own: the guard only
+looks at `Joined` nodes.  (On the canonical locations of the exhaustive scope the guard is also
+necessary: there `reverseStable` fails exactly where the law fails.) -/
+theorem reverse_involutive_partial (l : Loc) (L : Int) (hc : canonP l = true)
+    (hs : reverseStable l L = true) : reverse (reverse l L) L = l :=
+  reverse_reverse l L hc hs
+
+/-- non-vacuity: a complement-strand join of five parts with markers, an order with a join
+inside, and a join with a between-site, all inside `[0, 20]` -/
+example :
+    let a := compl (joined [ranged 0 2 true false, point 4, ranged 6 9 false false, ambiguous 11 13,
+      ranged 15 20 false true])
+    let b := ordered [joined [ranged 1 3 false false, compl (ranged 5 8 false false)], point 10, between 12]
+    let c := joined [ranged 1 3 true false, between 7, point 9]
+    (canonP a = true ∧ reverseStable a 20 = true ∧ coordsWithin a 20 = true) ∧
+    (canonP b = true ∧ reverseStable b 20 = true ∧ coordsWithin b 20 = true) ∧
+    (canonP c = true ∧ reverseStable c 20 = true ∧ coordsWithin c 20 = true) := by
+  decide
+
+/-- **the guard in terms of the location itself**: a canonical, well-formed location that reads no
+residue twice and contains no between-site, and in whose reversal K2 does not fire, meets
+`reverseStable` — the three refuted statements above each drop exactly one of these conditions
+(K2: `reverse_involutive_full_refuted`; a between-site, K1: `reverse_involutive_k2_refuted`; a
+residue read twice: `reverse_involutive_absorb_refuted`).  Proof: `Join` leaves parts alone iff no
+adjacent pair meets a rule of `Push`; the mirror image of such a pair meets one only through a
+between-site, a point on the last base of the range in front of it, or K2
+(`Gts/Lemmas/ReverseStable.lean`). -/
+theorem reverse_stable_of_nodup (l : Loc) (L : Int) (hc : canonP l = true) (hw : wf l = true)
+    (hnd : (den l).Nodup) (hnb : (leaves l).all (fun u => !isBetween u) = true)
+    (hk2 : reverseAbs l L = false) : reverseStable l L = true :=
+  reverseStable_of_guards l L hc hw hnd (by rw [allLeaves_eq_all]; exact hnb) hk2
+
+/-- **`Reverse` is an involution on every canonical location that reads no residue twice, has no
+between-site and does not meet K2** — any kind, arity, nesting, strand and partial markers, every
+`L`: exactly the conditions under which the harness evaluates its oracle "reverse: involution on
+canonical locations" (`isCanonical`, `nodup`, `!hasBetween`, guard line `k2.reverse`), now a theorem. -/
+theorem reverse_involutive_nodup_partial (l : Loc) (L : Int) (hc : canonP l = true) (hw : wf l = true)
+    (hnd : (den l).Nodup) (hnb : (leaves l).all (fun u => !isBetween u) = true)
+    (hk2 : reverseAbs l L = false) : reverse (reverse l L) L = l :=
+  reverse_involutive_partial l L hc (reverse_stable_of_nodup l L hc hw hnd hnb hk2)
+
+/-- non-vacuity: a complement-strand join of five parts with markers, and an order with a join and
+a complement inside -/
+example :
+    let a := compl (joined [ranged 0 2 true false, point 4, ranged 6 9 false false, ambiguous 11 13,
+      ranged 15 20 false true])
+    let b := ordered [joined [ranged 1 3 false false, compl (ranged 5 8 false false)], point 10]
+    (canonP a = true ∧ wf a = true ∧ (den a).Nodup ∧ (leaves a).all (fun u => !isBetween u) = true ∧
+      reverseAbs a 20 = false) ∧
+    (canonP b = true ∧ wf b = true ∧ (den b).Nodup ∧ (leaves b).all (fun u => !isBetween u) = true ∧
+      reverseAbs b 20 = false) := by
+  decide
+
+/-- FULL STATEMENT of the denotation-level law with the K2 guard on the FIRST reversal alone (false
+on the model, and on the code).  Witness `join(3..6,5^6,7)` on ten residues: canonical — the site
+separates the range from the point behind it — and K2 does not fire in `join(4,5^6,5..8)`, but
+`Push` drops the site after the point, so the second reversal joins `3..6` and `7` and K2 drops
+residue 7. -/
+theorem reverse_twice_den_full_refuted :
+    ¬ (∀ (l : Loc) (L : Int), canonP l = true → wf l = true → coordsWithin l L = true →
+        (den l).Nodup → reverseAbs l L = false → den (reverse (reverse l L) L) = den l) := by
+  intro h
+  have := h (joined [ranged 2 6 false false, between 5, point 6]) 10 (by decide) (by decide)
+    (by decide) (by decide) (by decide)
+  revert this
+  decide
+
+/-- … and with K2 firing in neither reversal, EQUALITY of the denotations still needs
+duplicate-freeness: `join(3..5,5)` reads residue 5 twice, its double reverse `3..5` once. -/
+theorem reverse_twice_den_eq_refuted :
+    ¬ (∀ (l : Loc) (L : Int), canonP l = true → wf l = true → coordsWithin l L = true →
+        reverseAbs l L = false → reverseAbs (reverse l L) L = false →
+        den (reverse (reverse l L) L) = den l) := by
+  intro h
+  have := h (joined [ranged 2 5 false false, point 4]) 10 (by decide) (by decide) (by decide)
+    (by decide) (by decide)
+  revert this
+  decide
+
+/-- **`Reverse` twice preserves meaning**: for every well-formed location (canonical or not, any
+kind and arity) and every `L`, when K2 fires in neither reversal, the twice reversed location reads
+the residues of `l` in the same order on the same strands — a residue `l` reads more than once
+possibly fewer times (`≼`). -/
+theorem reverse_twice_den_partial (l : Loc) (L : Int) (hw : wf l = true)
+    (h1 : reverseAbs l L = false) (h2 : reverseAbs (reverse l L) L = false) :
+    den (reverse (reverse l L) L) ≼ den l := reverse_reverse_den l L hw h1 h2
+
+/-- … exactly the same residues when `l` reads none twice (every real feature) -/
+theorem reverse_twice_den_nodup_partial (l : Loc) (L : Int) (hw : wf l = true)
+    (h1 : reverseAbs l L = false) (h2 : reverseAbs (reverse l L) L = false) (hnd : (den l).Nodup) :
+    den (reverse (reverse l L) L) = den l :=
+  (reverse_twice_den_partial l L hw h1 h2).eq_of_nodup hnd
+
+/-- non-vacuity: the second witness above — structurally NOT restored, its meaning is — and an
+odd-arity complement-strand join -/
+example :
+    wf (joined [point 4, between 4]) = true ∧ reverseAbs (joined [point 4, between 4]) 10 = false ∧
+    reverseAbs (reverse (joined [point 4, between 4]) 10) 10 = false ∧
+    (den (joined [point 4, between 4])).Nodup ∧
+    (reverse (reverse (joined [point 4, between 4]) 10) 10).beq (point 4) = true ∧
+    wf (compl (joined [ranged 0 2 true false, ranged 4 6 false false, ranged 8 10 false true])) = true ∧
+    reverseAbs (compl (joined [ranged 0 2 true false, ranged 4 6 false false, ranged 8 10 false true])) 12 = false ∧
+    reverseAbs (reverse (compl (joined [ranged 0 2 true false, ranged 4 6 false false, ranged 8 10 false true])) 12) 12 = false ∧
+    (den (compl (joined [ranged 0 2 true false, ranged 4 6 false false, ranged 8 10 false true]))).Nodup := by
+  decide
+
+/-! ### record level: `gts.Reverse(gts.Reverse(seq))` -/
+
+/-- the residues come back -/
+theorem seq_reverse_reverse_bytes (s : Seq) : s.reverse.reverse.bytes = s.bytes := by
+  simp [Seq.reverse]
+
+/-- no feature is lost or duplicated; each is re-located by `Reverse(len)` twice (the reversed
+record has the same length) -/
+theorem seq_reverse_reverse_table_perm (s : Seq) :
+    s.reverse.reverse.feats.Perm
+      (s.feats.map fun f => { f with loc := (f.loc.reverse s.len).reverse s.len }) :=
+  Seq.reverse_reverse_feats_perm s
+
+/-- **per feature, structurally**: a feature with a canonical location none of whose joins reduces
+under `Reverse(len)` is a feature of the twice reversed record, unchanged -/
+theorem seq_reverse_reverse_feature_partial (s : Seq) (f : Feature) (hf : f ∈ s.feats)
+    (hc : canonP f.loc = true) (hs : reverseStable f.loc s.len = true) :
+    f ∈ s.reverse.reverse.feats := by
+  have := mem_of_perm_map (seq_reverse_reverse_table_perm s) hf
+  rwa [reverse_involutive_partial f.loc s.len hc hs] at this
+
+/-- **per feature, in the terms of the feature**: a feature whose location is canonical,
+well-formed, duplicate-free, without between-site and K2-free under `Reverse(len)` is a feature of
+the twice reversed record, unchanged -/
+theorem seq_reverse_reverse_feature_nodup_partial (s : Seq) (f : Feature) (hf : f ∈ s.feats)
+    (hc : canonP f.loc = true) (hw : wf f.loc = true) (hnd : (den f.loc).Nodup)
+    (hnb : (leaves f.loc).all (fun u => !isBetween u) = true)
+    (hk2 : reverseAbs f.loc s.len = false) : f ∈ s.reverse.reverse.feats :=
+  seq_reverse_reverse_feature_partial s f hf hc (reverse_stable_of_nodup f.loc s.len hc hw hnd hnb hk2)
+
+/-- **the whole table**: when every feature meets the guard, the twice reversed record carries
+the same features (`FeatureSlice.Insert` may order equal-ranking features differently) and the
+same residues -/
+theorem seq_reverse_reverse_perm_partial (s : Seq)
+    (h : ∀ f ∈ s.feats, canonP f.loc = true ∧ reverseStable f.loc s.len = true) :
+    s.reverse.reverse.feats.Perm s.feats ∧ s.reverse.reverse.bytes = s.bytes := by
+  refine ⟨?_, seq_reverse_reverse_bytes s⟩
+  have e : (s.feats.map fun f => ({ f with loc := (f.loc.reverse s.len).reverse s.len } : Feature)) = s.feats := by
+    conv => rhs; rw [← List.map_id s.feats]
+    apply List.map_congr_left
+    intro f hf
+    have := reverse_involutive_partial f.loc s.len (h f hf).1 (h f hf).2
+    simp only [this, id]
+  have := seq_reverse_reverse_table_perm s
+  rwa [e] at this
+
+/-- **per feature, on denotations**: every well-formed feature comes back with its key and
+qualifiers and a location that reads the same residues in the same order on the same strands
+(fewer copies of a residue read twice), when K2 fires in neither reversal; the very same residues
+when none is read twice. -/
+theorem seq_reverse_reverse_feature_den_partial (s : Seq) (f : Feature) (hf : f ∈ s.feats)
+    (hw : wf f.loc = true) (h1 : reverseAbs f.loc s.len = false)
+    (h2 : reverseAbs (reverse f.loc s.len) s.len = false) :
+    ∃ f' ∈ s.reverse.reverse.feats, f'.key = f.key ∧ f'.props = f.props ∧
+      den f'.loc ≼ den f.loc ∧ ((den f.loc).Nodup → den f'.loc = den f.loc) :=
+  ⟨{ f with loc := (f.loc.reverse s.len).reverse s.len },
+   mem_of_perm_map (seq_reverse_reverse_table_perm s) hf, rfl, rfl,
+   reverse_twice_den_partial f.loc s.len hw h1 h2,
+   reverse_twice_den_nodup_partial f.loc s.len hw h1 h2⟩
+
+/-- non-vacuity: a record with a forward gene, a complement-strand join and a site; every feature
+meets the structural guard and the K2 guards -/
+example :
+    let s : Seq := ⟨[⟨"gene", ranged 1 7 true false, []⟩,
+      ⟨"CDS", compl (joined [ranged 0 2 true false, point 4, ranged 8 10 false false]), []⟩,
+      ⟨"misc_feature", between 6, []⟩],
+      [65,67,71,85,65,67,71,84,65,67,71,84]⟩
+    ∀ f ∈ s.feats, canonP f.loc = true ∧ reverseStable f.loc s.len = true ∧ wf f.loc = true ∧
+      reverseAbs f.loc s.len = false ∧ reverseAbs (reverse f.loc s.len) s.len = false ∧
+      (den f.loc).Nodup := by
+  decide +kernel
 
 /-! ### sequence level: `gts.Complement` and `gts.Reverse(gts.Complement(·))` -/
 
@@ -439,6 +678,19 @@ theorem gen_reverse_spec {ι : Type} (info : ι) (s : Seq) :
     ∃ ff, Gen.seqReverse info s.feats s.bytes = .ok (info, ff, s.bytes.reverse) ∧
       ff.Perm (s.feats.map fun f => { f with loc := f.loc.reverse s.len }) :=
   ⟨_, Bridge.seqReverse_eq info s, reverse_table_perm s⟩
+
+/-- **`gts.Reverse` as written, twice**: neither call panics, the residues and the metadata come
+back, and the table is that of `Seq.reverse (Seq.reverse s)` — the subject of the
+`seq_reverse_reverse_*` theorems above -/
+theorem gen_reverse_reverse_spec {ι : Type} (info : ι) (s : Seq) :
+    ∃ ff ff', Gen.seqReverse info s.feats s.bytes = .ok (info, ff, s.bytes.reverse) ∧
+      Gen.seqReverse info ff s.bytes.reverse = .ok (info, ff', s.bytes) ∧
+      ff' = s.reverse.reverse.feats ∧
+      ff'.Perm (s.feats.map fun f => { f with loc := (f.loc.reverse s.len).reverse s.len }) := by
+  refine ⟨s.reverse.feats, s.reverse.reverse.feats, Bridge.seqReverse_eq info s, ?_, rfl,
+    seq_reverse_reverse_table_perm s⟩
+  have := Bridge.seqReverse_eq info s.reverse
+  rwa [seq_reverse_reverse_bytes] at this
 
 /-- **`gts.Complement` as written** never panics (the `new[j]` of `replaceBytes` is always in range for the two
 alphabets of nucleotide.go), complements byte by byte and passes EVERY feature location through
